@@ -48,6 +48,7 @@ UUID_RE = re.compile(r"^[0-9a-f]{8}-[0-9a-f]{4}-[0-9a-f]{4}-[0-9a-f]{4}-[0-9a-f]
 
 GROUP_POOL = ["G1", "My Group", "grp 3", "Survey-Users", "été"]
 FLOW_POOL = ["f", "Flow B", "flow c"]
+GIVEN_GROUP_UUID = {g: "aaaaaaaa-0000-4000-8000-%012d" % i for i, g in enumerate(GROUP_POOL)}
 LABELS = ["Created On", "last seen on", "X", "a1 b2", "MiXeD Case", "Two  Spaces", "under_score", "A-b.c",
           "Signup Date 2", "q", "abcdefghijklmnopqrstuvwxyz0123456789", "AB CD EF GH IJ KL MN OP QR ST UV WX"]
 OFFSETS = ["0", "15", "-3", "+7", "1_000", "007", "150", "-0", "2"]
@@ -426,7 +427,7 @@ def collect_refs(out):
     return refs
 
 
-def refs_problems(out):
+def refs_problems(out, given=None):
     probs = []
     refs = collect_refs(out)
     by_name, by_uuid = {}, {}
@@ -442,6 +443,9 @@ def refs_problems(out):
         if len(ns) > 1:
             probs.append(f"{kind} uuid {uuid} is shared by names {sorted(map(str, ns))}")
     top = {g.get("name"): g.get("uuid") for g in out.get("groups", [])}
+    for g, u in (given or {}).items():
+        if top.get(g) != u:
+            probs.append(f"group {g!r} was given uuid {u} in a flow row but the container lists {top.get(g)!r}")
     for kind, name, uuid, where in refs:
         if kind == "group" and where in ("campaign", "trigger") and top.get(name) != uuid:
             probs.append(f"group {name!r} used by a {where} is not the top-level group of that name")
@@ -452,6 +456,12 @@ def refs_problems(out):
     if set(inv) & others:
         probs.append("a campaign / event uuid collides with a flow / group uuid")
     return probs
+
+
+def given_uuids(case):
+    defined = {it["name"] for it in case["items"] if it["kind"] == "flow"}
+    return {r[4].strip(): r[5] for f in case["flows"] if f["name"] in defined for r in f["rows"]
+            if r[1] in ("add_to_group", "remove_from_group") and r[5]}
 
 
 def oracle(case, real):
@@ -514,7 +524,7 @@ def oracle(case, real):
             exp, got = expected_trigger(r), observed_trigger(t)
             if got != exp:
                 fails.append(("trigger differs from its row (row-for-row compilation)", {"row": k, "cells": r["cells"], "got": got, "expected": exp}))
-    for p in refs_problems(out):
+    for p in refs_problems(out, given_uuids(case)):
         fails.append(("references do not resolve one-name-one-uuid: " + p, {}))
     if case.get("undefined_trigger_flow") == "referenced":
         fails.append(("a trigger for a flow that is only referenced, never defined, was accepted", {"finding": "F-C06-b"}))
@@ -554,7 +564,10 @@ def gen_flows(rng, n_defined):
         if rng.random() < 0.6:
             g = rng.choice(GROUP_POOL)
             used_groups.append(g)
-            rows.append(["", rng.choice(["add_to_group", "remove_from_group"]), "", "", g, "", ""])
+            # sometimes with the group's uuid given (one fixed uuid per name): campaign / trigger
+            # references to that name must then carry the given uuid
+            rows.append(["", rng.choice(["add_to_group", "remove_from_group"]), "", "", g,
+                         GIVEN_GROUP_UUID[g] if rng.random() < 0.4 else "", ""])
         if rng.random() < 0.35:
             other = rng.choice(defined)
             rows.append(["", "start_new_flow", "", "", "", "", other])
@@ -1132,7 +1145,7 @@ def run(ck: core.Check):
     import rpft.parsers.creation.contentindexparser  # noqa: F401  (fail early → infra)
 
     quick = ck.tier == "quick"
-    n_main, n_inv, n_edge = (1800, 900, 500) if quick else (24000, 12000, 6000)
+    n_main, n_inv, n_edge = (6000, 3000, 1500) if quick else (60000, 30000, 15000)
     cases = make_cases(ck.rng, n_main, n_inv, n_edge)
     sweep = enum_sweep_cases(10_000_000)
     known = known_cases(20_000_000)
